@@ -176,6 +176,10 @@ def gen_room(rng, n_bs=None, n_cf=None, mode=None, max_tilt=0.15):
         rest = vis[1:]
         rng.shuffle(rest)
         vis = head + rest
+    return _with_timing(rng, ids, bs, cf, vis, mode)
+
+
+def _with_timing(rng, ids, bs, cf, vis, mode):
     # ---- measurement order, repeats and time stamps
     max_time_diff = 0.020
     t = rng.uniform(0.0, 100.0)
@@ -199,6 +203,72 @@ def gen_room(rng, n_bs=None, n_cf=None, mode=None, max_tilt=0.15):
         t += rng.uniform(0.05, 2.0)
     return {'bs': {str(b): bs[b] for b in ids}, 'cf': cf, 'vis': vis2, 'dt': dts, 't0': t0,
             'max_time_diff': max_time_diff, 'min_bs': 2, 'mode': mode}
+
+
+SEAM_EPS = [0.0, 0.0, 0.0, 1e-9, -1e-9, 1e-7, -1e-6, 1e-5, -1e-4, 1e-3]
+LAYOUTS = {
+    'opposite2': [(1, 0), (-1, 0)],
+    'opposite2y': [(0, 1), (0, -1)],
+    'adjacent2': [(1, 0), (0, 1)],
+    'walls3': [(1, 0), (-1, 0), (0, 1)],
+    'walls4': [(1, 0), (-1, 0), (0, 1), (0, -1)],
+    'corners4': [(1, 1), (-1, 1), (-1, -1), (1, -1)],
+    'walls2corners2': [(1, 0), (-1, 0), (1, 1), (-1, -1)],
+    'walls4corners2': [(1, 0), (-1, 0), (0, 1), (0, -1), (1, 1), (-1, -1)],
+}
+
+
+def gen_structured_room(rng, layout=None):
+    """A rectangular, axis-aligned room inside the same envelope: base stations on walls / in corners at one height,
+    without roll, all facing the same point on the room's vertical axis (so stations on opposite walls are turned
+    exactly half a turn to each other); the first Crazyflie pose level with yaw exactly 0, +-90 or 180 degrees (so
+    stations on the walls are turned exactly 0 / a quarter / half a turn in the frame of the first sample), further
+    poses exactly a half / quarter turn from the first one, plus perturbations 1e-9 .. 1e-3 rad around those seams."""
+    layout = layout or rng.choice(sorted(LAYOUTS))
+    spots = LAYOUTS[layout]
+    ids = rng.sample(range(16), len(spots))
+    n_cf = rng.randint(3, 12)
+    while True:
+        a = rng.choice([2.0, 2.25, 2.5])                # half width of the room (walls), corners at 0.7 a
+        h = rng.choice([2.0, 2.25, 2.5])
+        zt = rng.choice([0.5, 0.75, 1.0])
+        bs = {}
+        for b, (ux, uy) in zip(ids, spots):
+            k = a if (ux == 0 or uy == 0) else 0.7 * a
+            pos = [k * ux, k * uy, h]
+            bs[b] = [_look_at_rotvec(pos, [0.0, 0.0, zt], 0.0), pos]
+        yaw0 = rng.choice([0.0, math.pi / 2, -math.pi / 2, math.pi]) + rng.choice(SEAM_EPS)
+        first = [_cf_rotvec(yaw0, 0.0, 0.0), [0.0, 0.0, rng.choice([0.0, 0.1, 0.3])]]
+        if not in_envelope(first, bs.values()):
+            continue
+        cf = [first]
+        tries = 0
+        while len(cf) < n_cf and tries < 80 * n_cf:
+            tries += 1
+            r = rng.random()
+            if r < 0.35:      # exactly (or nearly) half a turn from the first pose, level
+                yaw, tilt = yaw0 + math.pi + rng.choice(SEAM_EPS), 0.0
+            elif r < 0.55:    # a quarter turn
+                yaw, tilt = yaw0 + rng.choice([-1, 1]) * math.pi / 2 + rng.choice(SEAM_EPS), 0.0
+            elif r < 0.7:     # same heading
+                yaw, tilt = yaw0 + rng.choice(SEAM_EPS), 0.0
+            else:
+                yaw, tilt = rng.uniform(-math.pi, math.pi), 0.15
+            pos = [rng.choice([0.0, rng.uniform(-0.7, 0.7)]), rng.choice([0.0, rng.uniform(-0.7, 0.7)]),
+                   rng.uniform(0.0, 0.6)]
+            pose = [_cf_rotvec(yaw, rng.uniform(-tilt, tilt), rng.uniform(-tilt, tilt)), pos]
+            if in_envelope(pose, bs.values()):
+                cf.append(pose)
+        if len(cf) == n_cf:
+            break
+    if len(ids) >= 3 and rng.random() < 0.4:
+        # chained visibility: consecutive station pairs first, then everything
+        vis = [[ids[k % len(ids)], ids[(k + 1) % len(ids)]] if k < len(ids) - 1 else list(ids) for k in range(n_cf)]
+        if n_cf < len(ids) - 1:
+            vis[-1] = list(ids)
+    else:
+        vis = [list(ids) for _ in range(n_cf)]
+    return _with_timing(rng, ids, bs, cf, vis, 'structured_' + layout)
 
 
 # ------------------------------------------------------------------ measurement synthesis with the library's own types
@@ -259,8 +329,9 @@ class exact_ippe:
     so that everything after IPPE (frame changes, mirror vote, linkage, averaging, solver) is exercised without the
     planar two-fold ambiguity.  Unknown projections fall through to the real solver."""
 
-    def __init__(self, case):
+    def __init__(self, case, jitter=0.0):
         self.case = case
+        self.jitter = float(jitter)      # scatter of the delivered poses (rad / m), like error-free IPPE output (~1e-6)
 
     def __enter__(self):
         import numpy as np
@@ -278,6 +349,14 @@ class exact_ippe:
                 table[np.asarray(q, dtype=float).tobytes()] = (R, t)
         orig = self.orig
         Solution = ippe_cf.IppeCf.Solution
+        if self.jitter:
+            import random as _random
+            from scipy.spatial.transform import Rotation
+            for key in sorted(table):
+                rj = _random.Random(key)
+                R, t = table[key]
+                dR = Rotation.from_rotvec([rj.uniform(-1, 1) * self.jitter for _ in range(3)]).as_matrix()
+                table[key] = (dR @ R, t + np.array([rj.uniform(-1, 1) * self.jitter for _ in range(3)]))
 
         def solve(U_cf, Q_cf):
             hit = table.get(np.asarray(Q_cf, dtype=float).tobytes())
@@ -296,7 +375,7 @@ TOL_POS = 1e-3      # the property text: a millimetre
 TOL_ROT = 1e-3      # and a milliradian
 
 
-def run_pipeline(case, exact=False):
+def run_pipeline(case, exact=False, jitter=0.0):
     """Run the tree's matcher -> initial estimator -> solver on the measurements of `case`.
     Returns a dict with 'outcome' ('ok' | 'raised'), the stage reached, error figures against the ground truth
     expressed in the frame of the first sample the estimator kept, and figures for the initial guess."""
@@ -317,7 +396,7 @@ def run_pipeline(case, exact=False):
             res['matched_keys'] = [sorted(int(k) for k in s.angles_calibrated.keys()) for s in matched]
             res['stage'] = 'estimate'
             if exact:
-                with exact_ippe(case):
+                with exact_ippe(case, jitter):
                     guess, cleaned = LighthouseInitialEstimator.estimate(matched, LhDeck4SensorPositions.positions)
             else:
                 guess, cleaned = LighthouseInitialEstimator.estimate(matched, LhDeck4SensorPositions.positions)
